@@ -295,7 +295,8 @@ def _scan_tokens(rows_tok):
 
 
 _WALLET_CTX_OPS = {"addr", "scan.posE", "w.bip32", "w.bip32.pos", "w.key", "w.script", "w.script.pos", "w.desc.pos",
-                   "w.desc.map", "w.desc.mapspk"}
+                   "w.desc.map", "w.desc.mapspk", "core.watched", "core.imported", "core.widen", "core.request",
+                   "core.comparable"}
 _SCAN_CTX: dict = {}   # op line -> precomputed implementation answer (scan ops are answered from real objects)
 
 
@@ -1353,12 +1354,186 @@ def _o_wallet_labels(w):
     return True, f"{len(parsed)} chains"
 
 
+# ------------------------------------------------------------------ core_import: requests to and replies of a node
+def jtok(v) -> str:
+    """a decoded JSON value on the op line (see Driver/C14Main.lean `parseJ`)."""
+    if v is None:
+        return "N"
+    if isinstance(v, bool):
+        return "T" if v else "F"
+    if isinstance(v, int):
+        return f"I{v};"
+    if isinstance(v, float):
+        return f"W{int(v)};" if v.is_integer() else "X"
+    if isinstance(v, str):
+        return "S" + ".".join(str(ord(c)) for c in v) + ";"
+    if isinstance(v, list):
+        return "A" + "".join(jtok(x) for x in v) + "]"
+    if isinstance(v, dict):
+        return "O" + "".join(jtok(str(k)) + jtok(x) for k, x in v.items()) + "}"
+    raise TypeError(type(v).__name__)
+
+
+_J_SCALARS = [None, True, False, 0, 1, 5, -1, 999, 1000, 2 ** 31 - 1, 2 ** 31, 10 ** 30, -(10 ** 30), 1.0, 3.0, -0.0, 1.5,
+              float("inf"), float("nan"), 1e30, "", "5", "-3", "+7", "007", "abc", "1.0", "0x10", "-", "+", "12a",
+              "9" * 4300, "9" * 4301, "9" * 5000, "-" + "1" * 4300, "0" * 4301]
+
+
+def rand_json(rng, depth=2):
+    r = rng.random()
+    if depth == 0 or r < 0.55:
+        return rng.choice(_J_SCALARS)
+    if r < 0.8:
+        return [rand_json(rng, depth - 1) for _ in range(rng.choice([0, 1, 2, 2, 3]))]
+    return {rng.choice(["desc", "range", "success", "error", "descriptors", "k"]): rand_json(rng, depth - 1)
+            for _ in range(rng.choice([0, 1, 2]))}
+
+
+def _core_call(fn, *a, **kw):
+    try:
+        v = fn(*a, **kw)
+    except Exception as e:  # noqa: BLE001
+        return _err(e)
+    if v is None:
+        return "ok None"
+    if isinstance(v, tuple):
+        return "ok " + " ".join(str(x) for x in v)
+    return "ok"
+
+
+def _o_core_hostile(w):
+    """watched_range / assert_imported on ANY Python value in place of a node's reply (JSON shapes and others: tuples,
+    sets, bytes, objects): they answer or leave through a BTClib exception, never a foreign one."""
+    from btclib import core_import as CI
+    val = eval(w["value"], {"inf": float("inf"), "nan": float("nan"), "object": object})  # noqa: S307 - harness literal
+    outs = [_core_call(CI.watched_range, "pk(x)", val), _core_call(CI.watched_range, "pk(x)", {"descriptors": val}),
+            _core_call(CI.watched_range, "pk(x)", {"descriptors": [val]}),
+            _core_call(CI.watched_range, "pk(x)", {"descriptors": [{"desc": "pk(x)", "range": val}]}),
+            _core_call(CI.watched_range, "pk(x)", {"descriptors": [{"desc": val}]}),
+            _core_call(CI.assert_imported, val, val), _core_call(CI.assert_imported, [val], [val]),
+            _core_call(CI.assert_imported, [{}], [val]), _core_call(CI.assert_imported, [{"desc": val}], [{"error": val}])]
+    bad = [o for o in outs if o.startswith("err foreign")]
+    return not bad, f"{bad[:2]}" if bad else "answered or refused with the library's exceptions"
+
+
+def core_import_batch(ctx):
+    from btclib import core_import as CI
+    rng = ctx.rng
+    lines = []
+    g = Gen(rng, "mainnet")
+    bodies = []
+    for _ in range(6):
+        k = g.xkey(allow_hardened=True, canonical=True, ranged=True)
+        bodies.append("wpkh(" + k.text + ")")
+    bodies += ["pk(x)", "tr([aabbccdd/86'/0'/0']xpubQ/0/*)", "raw(00)"]
+
+    def spell(body):
+        b = body
+        if rng.random() < 0.5:
+            b = b.replace("h", "'") if rng.random() < 0.5 else b.replace("'", "h")
+        if rng.random() < 0.6:
+            b += "#" + "".join(rng.choice(D.CHECKSUM_CHARSET) for _ in range(8))
+        return b
+
+    def good_range():
+        a = rng.choice([0, 0, 5, 1000, 2 ** 31 - 10])
+        return [a, a + rng.choice([0, 1, 999, 5000])]
+
+    def bad_range():
+        return rng.choice([[1], [], [1, 2, 3], "12", {"a": 1}, None, [True, 2], ["9" * 5000, "5"], ["9" * 4300, 1],
+                           [1.5, 2], [float("inf"), 1], [2.0, 5.0], ["3", "7"], [[1], 2], [None, 1], [3, "x"], 7,
+                           [float("nan"), float("nan")], ["-2", "+9"], [10 ** 30, -(10 ** 30)], rand_json(rng, 2)])
+
+    # ---- watched_range: well-typed replies, then replies with one hostile spot, then anything
+    for _ in range(ctx.n(120, 1500)):
+        body = rng.choice(bodies)
+        entries = []
+        for _e in range(rng.choice([0, 1, 2, 3, 4])):
+            eb = body if rng.random() < 0.6 else rng.choice(bodies)
+            e = {"desc": spell(eb)}
+            if rng.random() < 0.75:
+                e["range"] = good_range()
+            if rng.random() < 0.3:
+                e["active"] = rng.random() < 0.5
+            entries.append(e)
+        reply = {"wallet_name": "w", "descriptors": entries}
+        mode = rng.random()
+        if mode < 0.45 and entries:
+            e = rng.choice(entries)
+            what = rng.random()
+            if what < 0.6:
+                e["range"] = bad_range()
+            elif what < 0.75:
+                e["desc"] = rng.choice([None, 5, ["pk(x)"], {"a": 1}, True, 1.0])
+            elif what < 0.85:
+                del e["desc"]
+            else:
+                entries[entries.index(e)] = rng.choice([None, "pk(x)", 5, [], [e], True])
+        elif mode < 0.55:
+            reply = rng.choice([{"descriptors": rand_json(rng, 1)}, {}, {"descriptor": entries}, rand_json(rng, 2)])
+        d = spell(body)
+        lines.append((f"core.watched {T(d)} {jtok(reply)}", _core_call(CI.watched_range, d, reply)))
+        ctx.count("core.watched", "well-typed" if mode >= 0.55 else "hostile")
+    # ---- assert_imported
+    for _ in range(ctx.n(60, 600)):
+        n_ = rng.choice([0, 1, 2, 3])
+        rq = [{"desc": "pk(x)#" + "q" * 8} for _ in range(n_)]
+        an = [{"success": rng.choice([True, True, True, False, 1, 0, "yes", "", None, 1.0, 0.0, [], [0], {}])}
+              if rng.random() < 0.9 else {"error": {"code": -4}} for _ in range(n_)]
+        mode = rng.random()
+        if mode < 0.15:
+            an = an[:-1] if an else [{}]
+        elif mode < 0.3:
+            (rq if rng.random() < 0.5 else an).insert(rng.randrange(n_ + 1), rand_json(rng, 1))
+            (an if len(an) < len(rq) else rq).append({"success": True}) if len(an) != len(rq) and rng.random() < 0.7 else None
+        elif mode < 0.4:
+            if rng.random() < 0.5:
+                rq = rand_json(rng, 1)
+            else:
+                an = rand_json(rng, 1)
+        lines.append((f"core.imported {jtok(rq)} {jtok(an)}",
+                      _core_call(CI.assert_imported, rq, an).replace("ok None", "ok")))
+    # ---- widened_range / import_request guards / _comparable
+    vals = [0, 1, 5, 999, 1000, 10 ** 6 - 1, 10 ** 6, 2 ** 31 - 1, 2 ** 31, -1, 2 ** 31 - 10 ** 6]
+    for _ in range(ctx.n(60, 600)):
+        w = (rng.choice(vals), rng.choice(vals))
+        wd = None if rng.random() < 0.4 else (rng.choice(vals), rng.choice(vals))
+        lines.append((f"core.widen {w[0]},{w[1]} " + ("-" if wd is None else f"{wd[0]},{wd[1]}"),
+                      _core_call(CI.widened_range, w, wd)))
+    texts = [D.add_checksum(b) for b in bodies[:6]] + [D.add_checksum("wpkh(" + g.fixed_key(
+        xonly_ok=False, uncompressed_ok=False, canonical=True).text + ")") for _ in range(3)]
+    for _ in range(ctx.n(80, 800)):
+        t_ = rng.choice(texts)
+        ranged = D.parse(t_).is_ranged
+        active, internal = rng.random() < 0.5, rng.random() < 0.4
+        label = rng.choice(["", "", "savings"])
+        kr = rng.choice([None, (0, 999), (5, 3), (0, 2 ** 31), (0, 10 ** 6), (0, 10 ** 6 - 1), (-1, 5), (7, 7),
+                         (2 ** 31 - 5, 2 ** 31 - 1)])
+        nx = rng.choice([None, None, 0, 7, 999, 1000, -1, 2 ** 31 - 1])
+        out = _core_call(CI.import_request, t_, internal=internal, active=active, key_range=kr, next_index=nx, label=label)
+        lines.append((f"core.request {int(ranged)} {int(active)} {int(internal)} {int(bool(label))} "
+                      + ("-" if kr is None else f"{kr[0]},{kr[1]}") + " " + ("-" if nx is None else str(nx)), out))
+    for body in bodies:
+        for _ in range(3):
+            t_ = spell(body)
+            lines.append((f"core.comparable {T(t_)}", "ok " + T(CI._comparable(t_))))
+    for ln, out in lines:
+        _SCAN_CTX[ln] = out
+    stream(ctx, "core.import", [ln for ln, _ in lines], key="core_import.model")
+    # ---- any Python value where a reply is expected: never a foreign exception (real code alone)
+    for v in ["None", "5", "'abc'", "b'ab'", "(1, 2)", "{1, 2}", "object()", "[1]", "{}", "{'desc': 1}", "1.5", "inf",
+              "['9' * 5000, '5']", "[(1, 2)]", "{'range': None}", "[[[[[1]]]]]", "{'descriptors': {'desc': 'pk(x)'}}",
+              "bytearray(b'x')", "range(3)", "iter([1, 2])", "frozenset()", "lambda: 1", "[inf, -inf]", "[nan, 1]",
+              "('9' * 4301, 1)", "[True, False]", "{'success': object()}"]:
+        ctx.check("core.hostile", {"value": v}, key="core_import.foreign_exception")
+
+
 ORACLES = {
     "derive": _o_derive, "corrupt": _o_corrupt, "roundtrip": _o_roundtrip, "atindex": _o_atindex,
     "multipath": _o_multipath, "index_of": _o_index_of, "wallet": _o_wallet, "wallet.agree": _o_wallet_agree, "wallet.raise": _o_wallet_raise, "wallet.address": _o_wallet_address,
     "wallet.ops": _o_wallet_ops, "checksum.reference": _o_checksum_ref,
     "opaque.roundtrip": _o_opaque_roundtrip, "brackets": _o_brackets, "int_digits": _o_int_digits,
-    "wallet.labels": _o_wallet_labels,
+    "wallet.labels": _o_wallet_labels, "core.hostile": _o_core_hostile,
 }
 
 
@@ -1733,6 +1908,7 @@ def run(ctx):  # noqa: PLR0912, PLR0915
 
     wallet_batch(ctx)
     wallet_labels_batch(ctx)
+    core_import_batch(ctx)
     opaque_batch(ctx)
 
 
